@@ -23,6 +23,7 @@
 
 #include "../include/bytebuf.hpp"
 #include "../include/checksum.hpp"
+#include <map>
 #include "../include/codec.hpp"
 
 namespace drv {
@@ -699,7 +700,16 @@ static void run_dec(const Ops& ops, const J& op, J& ev, bool reenc) {
     Bytes tail = bytes_of_array(op["tail"]);
     data.insert(data.end(), tail.begin(), tail.end());
     ByteBuf buf(data);
-    Holder h(ops);
+    // "reuse": decode into the object the previous dec op of this packet used (it is then kept alive for the
+    // next op and deliberately never destroyed), otherwise into a fresh one
+    static std::map<std::string, void*> last;
+    const bool reuse = op["reuse"].kind == J::Bool && op["reuse"].b && last.count(ops.pkt) != 0;
+    struct Ref {
+        const Ops& ops;
+        void* p;
+        codec::BinaryCodec& codec() { return *ops.codec(p); }
+    } h{ops, reuse ? last[ops.pkt] : ops.create()};
+    last[ops.pkt] = h.p;
     try {
         h.codec().decode(buf);
     } catch (const std::exception& e) {
